@@ -1,6 +1,10 @@
 PROPS["C13"] = dict(
-    jobs=[job("dma", "c13_dma", cases={Q: 260, T: 40000})],
-    rule="per case one Teakra facade (owned or user-supplied memory, random contents) and up to 6 transfers programmed "
+    jobs=[job("dma", "c13_dma", cases={Q: 80, T: 3000}),
+          # same workload under ASan+UBSan: the configurations outside the statement (unaligned / 8-bit / partial bursts) are
+          # executed for sanitizer coverage; a sanitizer abort kills the worker and becomes a violation (crash_is_violation)
+          job("asan", "c13_dma", flavour="asan", cases={Q: 6, T: 200})],
+    crash_is_violation=True,
+    rule="per case one Teakra facade (owned or user-supplied memory, random contents) and up to 24 transfers programmed "
          "through MMIO (0x1BE/0x1C0..0x1DE, AHBM 0x0E2..; all 8 DMA channels, 3 AHBM channels, bitmask routing): spaces "
          "{dsp,ext}^2, word/double-word, size0/1/2 in {0,1,small,16-bit edges}, steps {0,1,unit,odd,16-bit}, bursts x1/x4/x8, "
          "overlapping ranges; <= 2^20 elements; DSP-side walks stay inside the 0x20000-word data area; double-word mode with "
@@ -10,10 +14,10 @@ PROPS["C13"] = dict(
          "burst, which dimensions > 1, which sizes are 0, overlap, DMA channel) keys of fully value-checked transfers",
     floors={Q: {"transfers": 10000, "irq_exactly_once": 10000, "ext_checked_transfers": 2000, "burst_checked_transfers": 300,
                 "ext_log_entries_compared": 50000, "overlapping_transfers": 500, "three_dimensional_transfers": 1500,
-                "zero_size_transfers": 1000, "ext_exec_only_transfers": 500, "big_transfers": 2},
-            T: {"transfers": 1500000, "irq_exactly_once": 1500000, "ext_checked_transfers": 300000, "burst_checked_transfers": 40000,
-                "overlapping_transfers": 80000, "three_dimensional_transfers": 200000, "zero_size_transfers": 150000,
-                "big_transfers": 300}},
+                "zero_size_transfers": 1000, "ext_exec_only_transfers": 500, "big_transfers": 5, "size_16bit_edge_transfers": 50},
+            T: {"transfers": 400000, "irq_exactly_once": 400000, "ext_checked_transfers": 150000, "burst_checked_transfers": 50000,
+                "overlapping_transfers": 80000, "three_dimensional_transfers": 150000, "zero_size_transfers": 100000,
+                "big_transfers": 300, "size_16bit_edge_transfers": 3000}},
     ready=True,
     technique="runtime monitoring: lock-step reference model of the 3-D element walk and of aligned external accesses, next to the real "
               "Teakra facade driven through MMIO with a logging sparse external memory",
